@@ -159,9 +159,14 @@ def analyse_root(spec):
     }
 
 
-def run_roots(specs, jobs=8):
+def run_roots(specs, jobs=None):
     out = []
-    with cf.ProcessPoolExecutor(max_workers=min(jobs, len(specs))) as pool:
+    if jobs is None:
+        try:
+            jobs = int(os.environ.get("VERIF_JOBS", "8"))
+        except ValueError:
+            jobs = 8
+    with cf.ProcessPoolExecutor(max_workers=max(1, min(jobs, len(specs)))) as pool:
         for r in pool.map(analyse_root, specs):
             out.append(r)
     return out
